@@ -295,6 +295,11 @@ func (e *Env) ident(name string) Val {
 			if e.cur == nil {
 				efail("state access in pure context")
 			}
+			// a parameter spilled to a cell (captured by a closure): in the
+			// pre-state the cell is not initialised yet - old(p) is the argument
+			if pv, isParam := t.paramEnv[name]; isParam && e.now != nil && pv.Cell == nil && pv.T.S != "" {
+				return pv
+			}
 			return Val{T: t.load(e.cur, v.Cell), Ty: v.Ty}
 		}
 		return v
